@@ -5,7 +5,7 @@
 use super::*;
 
 pub const MAXR: usize = 5; // rune slots: <= 3 input runes + minted + etched
-pub const MAXO: usize = 3; // outputs
+pub const MAXO: usize = 4; // outputs
 pub const MAXE: usize = 2; // edicts
 
 #[derive(Clone, Copy)]
